@@ -5,7 +5,6 @@ import (
 	"net/http"
 
 	"github.com/0xReLogic/Helios/internal/logging"
-	"github.com/0xReLogic/Helios/internal/utils"
 )
 
 // IPFilter provides IP-based access control with allow/deny lists
@@ -101,7 +100,13 @@ func (f *IPFilter) IsAllowed(ip string) bool {
 // Middleware returns an HTTP middleware that filters requests based on IP
 func (f *IPFilter) Middleware(next http.Handler) http.Handler {
 	return http.HandlerFunc(func(w http.ResponseWriter, r *http.Request) {
-		clientIP := utils.GetClientIP(r)
+		// The decision must be based on the address of the peer that is actually
+		// connected: X-Forwarded-For / X-Real-IP are supplied by the client, so a
+		// denied or non-allowed peer could otherwise pick any address it likes.
+		clientIP := r.RemoteAddr
+		if host, _, err := net.SplitHostPort(r.RemoteAddr); err == nil {
+			clientIP = host
+		}
 
 		if !f.IsAllowed(clientIP) {
 			logging.WithContext(r.Context()).Warn().
